@@ -232,6 +232,47 @@ def run(ctx: Context, rep) -> None:
            message="the description is parsed from <path>/dataset_info.json "
            "with the DatasetInfo schema")
 
+    # -- C20.encoding ---------------------------------------------------------------
+    rep.rule(
+        "C20.encoding",
+        "every metadata file is written and read as text with the same "
+        "explicit encoding (utf-8): the one text-mode write site and every "
+        "read_text / text-mode open of a JSON metadata file pass "
+        "encoding=\"utf-8\", so a description with non-ASCII text reopens "
+        "under any locale")
+    n_enc = 0
+    for fn in funcs:
+        for c in fn.calls():
+            f = c.func
+            is_rt = isinstance(f, ast.Attribute) and f.attr in ("read_text",
+                                                                "write_text")
+            is_open = isinstance(f, ast.Name) and f.id == "open" or (
+                isinstance(f, ast.Attribute) and f.attr == "open" and
+                ctx.effects(fn, c) & {"FS_READ", "FS_CREATE"})
+            if is_open:
+                mode = ctx.arg(c, 1, "mode")
+                m = const_str(mode) if mode is not None else "r"
+                if m is None or "b" in m:
+                    continue
+            if not (is_rt or is_open):
+                continue
+            n_enc += 1
+            enc = ctx.arg(c, None, "encoding")
+            rep.ob("C20.encoding", const_str(enc) in ("utf-8", "utf8", "UTF-8"),
+                   loc=fn.loc(c), where=fn.qualname, construct=short(c, 90),
+                   message="text I/O of metadata must name its encoding "
+                   "(utf-8), otherwise it depends on the process locale")
+    rep.floor("C20.encoding", n_enc, 5, "text-mode metadata I/O sites")
+
+    from sa.rules.c06 import check_rename
+    check_rename(ctx, rep, "C20.same-dir")
+    rep.rule(
+        "C20.same-dir",
+        "relocation: metadata updates create their temporary file next to "
+        "the target (same directory, hence same file system) and rename it "
+        "over the target, so a dataset moved to another mount keeps "
+        "accepting writes (same check as C06.rename)")
+
     # -- C20.only ----------------------------------------------------------------------
     rep.rule(
         "C20.only",
@@ -397,6 +438,12 @@ SELFTESTS = [
          new="        if semver.Version.parse(sedpack.__version__) < semver.Version.parse(\n                dataset_info.metadata.sedpack_version):"),
     dict(rule="C20.gate", name="eq-one-twin", expect="silent", path=_DB,
          old="                sedpack.__version__) > 0:", new="                sedpack.__version__) == 1:"),
+    dict(rule="C20.encoding", name="description-read-locale-encoding", expect="fire", path=_DB,
+         old="DatasetBase._get_config_path(path).read_text(encoding=\"utf-8\"))",
+         new="DatasetBase._get_config_path(path).read_text())"),
+    dict(rule="C20.same-dir", name="temp-in-system-tmp", expect="fire", path=_U,
+         old="    new_file = file_path.parent / f\"update_{update_id}_of_{file_path.name}\"",
+         new="    import tempfile\n    new_file = Path(tempfile.gettempdir()) / f\"update_{update_id}_of_{file_path.name}\""),
     dict(rule="C20.only", name="init-bypasses-load", expect="fire", path=_DS,
          old="            dataset_info = DatasetBase._load(Path(path))",
          new="            dataset_info = DatasetInfo.model_validate_json(\n                DatasetBase._get_config_path(Path(path)).read_text(encoding=\"utf-8\"))"),
